@@ -39,19 +39,7 @@ func (e *Engine) callExternal(fn *types.Func, recv Value, args []Value, cx *ast.
 		return VTerm{T: mkMin(real(0), real(1)), Typ: f64}
 	case "math.Pow":
 		x, y := real(0), real(1)
-		e.notes["assumed external: math.Pow(x,2)=x*x, Pow(x,-1)=1/x, Pow(x,0.5)=sqrt(x), other exponents uninterpreted"] = true
-		if y.Op == "real" {
-			switch {
-			case y.Rat.Cmp(big.NewRat(2, 1)) == 0:
-				return VTerm{T: mkArith("*", x, x), Typ: f64}
-			case y.Rat.Cmp(big.NewRat(-1, 1)) == 0:
-				return VTerm{T: mkArith("/", mkRat(big.NewRat(1, 1)), x), Typ: f64}
-			case y.Rat.Cmp(big.NewRat(1, 2)) == 0:
-				return VTerm{T: mkApp("sqrt", SReal, x), Typ: f64}
-			case y.Rat.Cmp(big.NewRat(1, 1)) == 0:
-				return VTerm{T: x, Typ: f64}
-			}
-		}
+		e.notes["assumed external: math.Pow(x,y) = powr(x,y) with powr(x,2)=x*x, powr(x,-1)=1/x, powr(x,1)=x, other exponents uninterpreted"] = true
 		return VTerm{T: mkApp("powr", SReal, x, y), Typ: f64}
 	case "math.Floor":
 		return VTerm{T: toReal(&Term{Op: "to_int", Args: []*Term{real(0)}, Sort: SInt}), Typ: f64}
@@ -83,6 +71,20 @@ func (e *Engine) callExternal(fn *types.Func, recv Value, args []Value, cx *ast.
 	case "sync.WaitGroup.Add", "sync.WaitGroup.Done", "sync.WaitGroup.Wait":
 		e.notes["assumed external: sync.WaitGroup used only to join; Wait returns after every Done"] = true
 		return VTuple{}
+	case "slices.Max", "slices.Min":
+		sl, ok := args[0].(VSlice)
+		if !ok || sl.Len.Op != "int" || !sl.Len.Int.IsInt64() || sl.Len.Int.Int64() < 1 || sl.Len.Int.Int64() > 16 {
+			unsup("slices.Max/Min of a slice of non-literal length at %s", e.src(cx))
+		}
+		acc := mkSelect(sl.Arr, mkInt(0))
+		for i := int64(1); i < sl.Len.Int.Int64(); i++ {
+			if name == "Max" {
+				acc = mkMax(acc, mkSelect(sl.Arr, mkInt(i)))
+			} else {
+				acc = mkMin(acc, mkSelect(sl.Arr, mkInt(i)))
+			}
+		}
+		return VTerm{T: acc, Typ: sl.Elem}
 	case "errors.New", "fmt.Errorf":
 		r := e.fresh("err", SRef)
 		st.assume(mkNot(mkEq(r, mkConst("nil", SRef))))
